@@ -56,8 +56,8 @@ def gen_cases(tier: str, seed: int) -> list[dict]:
     for i in range(nspecs):
         cases.append({"spec_i": i, "seed": seed, "nsched": nsched})
     depth = 3 if tier == "quick" else 6
-    for i in range(12):
-        for cut in ((0, 6) if tier == "quick" else (0, 4, 8, 12)):
+    for i in range(13):
+        for cut in ((0, 6) if tier == "quick" else (0, 4, 8, 12)) + ((10, 14) if i == 12 else ()):
             cases.append({"kind": "exhaustive", "spec_i": i, "cut": cut, "depth": depth, "seed": seed})
     for i in range(80 if tier == "quick" else 1000):
         cases.append({"kind": "race", "spec_i": i, "seed": seed})
@@ -182,7 +182,7 @@ def _exhaustive(case: dict) -> dict:
     from .. import env
     from ..world import World
 
-    small = [specs.chain(2), specs.diamond(), specs.first_of(2), specs.self_loop(1), specs.jump_loop(1, 2), specs.transient(1, True), specs.polling(1), specs.failed_continue(), specs.or_split(), specs.quorum(3, 2), specs.synthetic(), specs.multitask()]
+    small = [specs.chain(2), specs.diamond(), specs.first_of(2), specs.self_loop(1), specs.jump_loop(1, 2), specs.transient(1, True), specs.polling(1), specs.failed_continue(), specs.or_split(), specs.quorum(3, 2), specs.synthetic(), specs.multitask(), specs.stopped_branch()]
     spec = small[case["spec_i"] % len(small)]
     ref = delivery_run(spec, order="fifo")
     obs: Counter = Counter()
